@@ -451,14 +451,107 @@ const ENOENT: c_int = 2;
 /// file system (a user database, /proc, a configuration file), the simulator sees the path and
 /// makes the file appear and disappear with the environment epoch (ENOENT in half of the epochs),
 /// so that a result depending on it shows up as a difference between equal inputs.
+/// Resource limits of the process (soft, hard) as simulated caller threads see them: a function of
+/// the environment epoch. 7 = RLIMIT_NOFILE, 3 = RLIMIT_STACK, 9 = RLIMIT_AS.
+fn sim_rlimit(resource: c_int) -> Option<(u64, u64)> {
+    let v = sim_identity(0xC3 ^ resource as u64, "rlimit", 5)? as usize;
+    const INF: u64 = u64::MAX;
+    Some(match resource {
+        7 => [(24, 4096), (32, 32), (64, 1024), (1024, 4096), (20_000, 20_000)][v],
+        3 => [(8 << 20, INF), (1 << 20, 1 << 20), (INF, INF), (256 << 10, INF), (64 << 20, INF)][v],
+        _ => [(INF, INF), (INF, INF), (1 << 30, INF), (INF, INF), (4u64 << 30, 4u64 << 30)][v],
+    })
+}
+
+#[repr(C)]
+pub struct Rlimit {
+    cur: u64,
+    max: u64,
+}
+
+#[no_mangle]
+pub unsafe extern "C" fn getrlimit(resource: c_int, out: *mut Rlimit) -> c_int {
+    prlimit64(0, resource, std::ptr::null(), out)
+}
+
+#[no_mangle]
+pub unsafe extern "C" fn getrlimit64(resource: c_int, out: *mut Rlimit) -> c_int {
+    prlimit64(0, resource, std::ptr::null(), out)
+}
+
+#[no_mangle]
+pub unsafe extern "C" fn prlimit(pid: c_int, resource: c_int, new: *const Rlimit, old: *mut Rlimit) -> c_int {
+    prlimit64(pid, resource, new, old)
+}
+
+#[no_mangle]
+pub unsafe extern "C" fn prlimit64(pid: c_int, resource: c_int, new: *const Rlimit, old: *mut Rlimit) -> c_int {
+    if pid == 0 && new.is_null() && !old.is_null() {
+        if let Some((cur, max)) = sim_rlimit(resource) {
+            (*old).cur = cur;
+            (*old).max = max;
+            return 0;
+        }
+    }
+    let r = sys!(302, pid, resource, new, old);
+    if r < 0 {
+        *__errno_location() = (-r) as c_int;
+        return -1;
+    }
+    0
+}
+
+/// A file whose content the simulator writes itself (an anonymous memory file).
+unsafe fn synthetic_file(content: &str) -> c_int {
+    let fd = sys!(319, b"fpsim\0".as_ptr(), 0) as c_int; // memfd_create
+    if fd < 0 {
+        *__errno_location() = ENOENT;
+        return -1;
+    }
+    sys!(1, fd, content.as_ptr(), content.len()); // write
+    sys!(8, fd, 0, 0); // lseek(fd, 0, SEEK_SET)
+    fd
+}
+
+fn sim_proc_limits() -> String {
+    let show = |v: u64| if v == u64::MAX { "unlimited".to_string() } else { v.to_string() };
+    let (nofile, stack, addr) = (sim_rlimit(7).unwrap_or((1024, 4096)), sim_rlimit(3).unwrap_or((8 << 20, u64::MAX)), sim_rlimit(9).unwrap_or((u64::MAX, u64::MAX)));
+    let mut out = String::from("Limit                     Soft Limit           Hard Limit           Units     \n");
+    let mut row = |name: &str, soft: String, hard: String, units: &str| out.push_str(&format!("{name:<26}{soft:<21}{hard:<21}{units:<10}\n"));
+    row("Max cpu time", "unlimited".into(), "unlimited".into(), "seconds");
+    row("Max file size", "unlimited".into(), "unlimited".into(), "bytes");
+    row("Max data size", "unlimited".into(), "unlimited".into(), "bytes");
+    row("Max stack size", show(stack.0), show(stack.1), "bytes");
+    row("Max core file size", "0".into(), "unlimited".into(), "bytes");
+    row("Max resident set", "unlimited".into(), "unlimited".into(), "bytes");
+    row("Max processes", "127422".into(), "127422".into(), "processes");
+    row("Max open files", show(nofile.0), show(nofile.1), "files");
+    row("Max locked memory", "8388608".into(), "8388608".into(), "bytes");
+    row("Max address space", show(addr.0), show(addr.1), "bytes");
+    row("Max file locks", "unlimited".into(), "unlimited".into(), "locks");
+    row("Max pending signals", "127422".into(), "127422".into(), "signals");
+    row("Max msgqueue size", "819200".into(), "819200".into(), "bytes");
+    row("Max nice priority", "0".into(), "0".into(), "");
+    row("Max realtime priority", "0".into(), "0".into(), "");
+    row("Max realtime timeout", "unlimited".into(), "unlimited".into(), "us");
+    out
+}
+
 unsafe fn sim_open(dirfd: c_long, path: *const std::os::raw::c_char, flags: c_int, mode: c_uint) -> c_int {
     let env = active();
     if !env.is_null() && !path.is_null() {
         let text = std::ffi::CStr::from_ptr(path).to_string_lossy().to_string();
-        let mut st = (*env).lock().unwrap_or_else(|e| e.into_inner());
-        if !sim_exists(&mut st, &text) {
+        let present = {
+            let mut st = (*env).lock().unwrap_or_else(|e| e.into_inner());
+            sim_exists(&mut st, &text)
+        };
+        if !present {
             *__errno_location() = ENOENT;
             return -1;
+        }
+        // what the process can read about itself is simulated too
+        if text == "/proc/self/limits" || text.ends_with("/limits") && text.starts_with("/proc/") {
+            return synthetic_file(&sim_proc_limits());
         }
     }
     let r = sys!(SYS_OPENAT, dirfd, path, flags as c_long, mode as c_long);
@@ -619,7 +712,17 @@ pub unsafe extern "C" fn statx(dirfd: c_int, path: *const std::os::raw::c_char, 
             *(buf.add(4) as *mut u32) = 4096;
             *(buf.add(16) as *mut u32) = 1;
             *(buf.add(28) as *mut u16) = 0o100644;
-            *(buf.add(40) as *mut u64) = 42;
+            // size, owner and time stamps are functions of (path, epoch) like existence itself
+            // struct statx: stx_uid u32 @20, stx_gid u32 @24, stx_size u64 @40, stx_atime @64,
+            // stx_btime @80, stx_ctime @96, stx_mtime @112 (each: tv_sec i64, tv_nsec u32)
+            let h = sim_identity(0xB7 ^ crate::rng::hash_str(&std::ffi::CStr::from_ptr(path).to_string_lossy()), "statx fields", u64::MAX).unwrap_or(0);
+            *(buf.add(20) as *mut u32) = [0u32, 1000, 60_001][(h % 3) as usize];
+            *(buf.add(24) as *mut u32) = [0u32, 100, 60_001][((h >> 2) % 3) as usize];
+            *(buf.add(40) as *mut u64) = [0u64, 42, 4096, 1 << 31][((h >> 4) % 4) as usize];
+            for (k, off) in [64usize, 80, 96, 112].iter().enumerate() {
+                *(buf.add(*off) as *mut i64) = 1_400_000_000 + ((h >> (8 + 8 * k)) % 300_000_000) as i64;
+                *(buf.add(*off + 8) as *mut u32) = ((h >> 40) % 1_000_000_000) as u32;
+            }
             0
         }
         Some(_) => {
